@@ -368,6 +368,12 @@ def run(chk):
         "(lists: only ever iterated) is a constant table, `for x in TABLE` is unrolled, all(E for x in TABLE) becomes the and-chain, tuple(..)/[..] over TABLE the literal, "
         "getattr(o, 'ident') the attribute read; the table is compared with the imported module's value; x_main reads `with P.open(..) as F: X = json.load(F)` as "
         "X = json.load(P.open(..)) (single load, F not used elsewhere; other context managers rejected); both rewrites are argued in the translators' comments, not verified",
+        "x_modelpy reads a module-level dict literal {str: class of the module} that is bound exactly once and only ever read as TABLE[e], TABLE.get(e) or tuple(TABLE.values()) "
+        "inside function bodies as the same literal written locally in the dispatch function (the table is compared with the imported module's dict: keys, order, identity of "
+        "each class); a one-parameter dispatch function with single-assignment locals and conditional expressions over tests info[KEY] == 'k' is executed symbolically to the "
+        "function value-of-KEY -> class it computes; x_main reads `with P.open(..) as F: return json.load(F)` in a followed helper as `return json.load(P.open(..))` and splices a "
+        "helper whose returns all stand in tail position of if/else branches (guard form `if c: ..return` + rest included) with each return turned into the binding of the "
+        "call's target; argued in the translators' comments, not verified",
         "lib/c18_history.py + lib/c18_hplugin.py: the process-history driver calls the real generator.__main__.main repeatedly in one interpreter (nothing patched) and judges "
         "each step against the real jsonschema under root MetaModel",
         "lib/c18_docs.py: schema_coverage reads lsp.schema.json (type, properties, required, anyOf/oneOf, items, enum, const, $ref) to enumerate shapes; every document it "
